@@ -219,7 +219,7 @@ def run_property(pid, tier, seed, state, t0):
         cov["max_steps_per_token_ratio"] = st["max_ratio"]
     write_evidence(pid, tier, seed, level, cov, time.time() - t0, violations, cfg)
     print("check %s tier=%s seed=%d: obligations %d/%d, evaluations %d, violations %d, %.1fs" % (
-        pid, tier, seed, cov["discharged"], cov["obligations"], cov["evaluations"], violations, time.time() - t0))
+        pid, tier, seed, cov["discharged"], cov["obligations"], cov.get("evaluations", 0), violations, time.time() - t0))
     return 1 if violations else 0
 
 
